@@ -42,6 +42,9 @@ def sess(st, a, stay, en):
 INNER = {"max2": {"kind": "script", "prog": {"rule": "max", "len": 2}}, "unc": {"kind": "unc"}}
 
 
+EDIT_LIMIT = 17.3  # new limit of the last-added constraint of N2 ("lc") in two-phase histories with an edit
+
+
 def space(tier, seed):
     thorough = tier == "thorough"
     pool = [sess(st, a, sy, en) for st in ("PS-A", "PS-B", "PS-C") for a in (0, 1, 2) for sy in ((1, 2, 4) if thorough else (1, 3)) for en in ("large", "small")]
@@ -57,6 +60,19 @@ def space(tier, seed):
             for k in (None, 1, 2):
                 for inner in ("max2", "unc"):
                     items.append({"net": "N2", "sessions": ss, "k": k, "recompute": [], "inner": inner, "sched": INNER[inner], "period": 5, "two_phase": b["a"]})
+                    # ... and with the limit of the last-added constraint changed between the two runs
+                    # (update_constraint under the same name: ids and shapes stay, only the numbers move)
+                    items.append({"net": "N2", "sessions": ss, "k": k, "recompute": [], "inner": inner, "sched": INNER[inner], "period": 5, "two_phase": b["a"], "edit": EDIT_LIMIT})
+    # an explicit early UnplugEvent queued by the user: the simulator's own unplug at the departure finds the station
+    # empty - it is still an event of that period
+    for ss in S.session_subsets(pool, 1, 2):
+        long_ = [s for s in ss if s["d"] - s["a"] >= 3]
+        if not long_:
+            continue
+        long_[0]["xu"] = long_[0]["a"] + 1
+        for k in (None, 2, 3):
+            for inner in ("max2", "unc"):
+                items.append({"net": "N2", "sessions": ss, "k": k, "recompute": [], "inner": inner, "sched": INNER[inner], "period": 5})
     if thorough:
         pool3 = [sess(st, a, sy, en) for st in ("PS-A", "PS-B", "PS-C") for a in (0, 1) for sy in (1, 3) for en in ("large", "small")]
         for ss in S.session_subsets(pool3, 3, 3):
@@ -72,6 +88,8 @@ def expected_invocations(scn):
     for s in scn["sessions"]:
         evt.add(s["a"])
         evt.add(s["d"])
+        if s.get("xu") is not None:
+            evt.add(s["xu"])
     k, last, out = scn["k"], None, []
     for t in range(L + 1):
         if t in evt or (k is not None and (last is None or t - last >= k)):
@@ -201,6 +219,11 @@ def one_run(scn, mutate):
             sim.run()
             if later:
                 rec.interface.active_sessions(), rec.interface.last_actual_charging_rate  # a look between the runs
+                if scn.get("edit") is not None:
+                    from acnportal.acnsim.network import Current
+
+                    cname, coefs, _ = S.NETS[scn["net"]]["constraints"][-1]
+                    sim.network.update_constraint(cname, Current(dict(coefs)), scn["edit"], cname)
                 sim.event_queue.add_events(later)
                 sim.run()
         except Exception as exc:
@@ -225,7 +248,7 @@ def check_recording(scn, sim, periods, log, tpl, out):
         t = c["t"]
         occ = {st: None for st in volt}
         for s in ss:
-            if s["a"] <= t < s["d"]:
+            if s["a"] <= t < (s["d"] if s.get("xu") is None else min(s["d"], s["xu"])):
                 occ[s["st"]] = s["sid"]
         if c["occ"] != occ:
             out("call:before-events", "invocation in period %d saw occupancy %s, after this period's events it is %s" % (t, c["occ"], occ), c["occ"], occ)
@@ -277,7 +300,7 @@ def check_recording(scn, sim, periods, log, tpl, out):
             list(info.station_ids) == sts
             and list(info.constraint_ids) == [cn for cn, _, _ in spec["constraints"]]
             and np.array_equal(arr(info.constraint_matrix), arr(tpl.constraint_matrix))
-            and np.allclose(arr(info.constraint_limits), [l for _, _, l in spec["constraints"]], rtol=0, atol=0)
+            and np.allclose(arr(info.constraint_limits), [l for _, _, l in spec["constraints"]][:-1] + [scn["edit"] if (scn.get("edit") is not None and t >= scn["two_phase"]) else spec["constraints"][-1][2]], rtol=0, atol=0)
             and list(arr(info.phases)) == [spec["stations"][s][2] for s in sts]
             and list(arr(info.voltages)) == [spec["stations"][s][1] for s in sts]
             and list(arr(info.max_pilot)) == [tpl._EVSEs[s].max_rate for s in sts]
@@ -339,7 +362,7 @@ def execute(scn):
     )
     if not same:
         out("mutating:trajectory-differs", "mutating the objects handed to the scheduler changed the simulation", None, None)
-    if net_fingerprint(sim2.network) != net_fingerprint(tpl):
+    if net_fingerprint(sim2.network) != net_fingerprint(tpl if scn.get("edit") is None else sim.network):
         out("mutating:network-altered", "mutating the objects handed to the scheduler altered the network description", None, None)
     return sim, periods, log, viol
 
